@@ -2,6 +2,8 @@
 Theorems: lean/ZygoVerif/Props/C15.lean over Model/SQ.lean (GenerateSyntaxQuote & the VM
 instructions it emits) against Spec/Subst.lean. Tie: channel `sq` (templates x bindings in
 reader-sugar, longhand and Go-API form; macro bodies x argument forms x call sites)."""
+import json
+import os
 import vcommon as V
 
 META = dict(
@@ -13,6 +15,15 @@ META = dict(
 
 
 def run(rep):
+    # property-local known findings (notes/C15.known.json) in addition to the shared file
+    try:
+        with open(os.path.join(V.VERIF, "notes", "C15.known.json")) as f:
+            d = json.load(f)
+        for k in (d.get("findings", []) if isinstance(d, dict) else d):
+            if k.get("property") == "C15" and k not in rep.known:
+                rep.known.append(k)
+    except (OSError, ValueError):
+        pass
     prep = V.prepare(["ZygoVerif.Props.C15"])
     ok = V.lean_phase(rep, prep, "ZygoVerif.Props.C15")
     rep.assumptions += [
